@@ -17,12 +17,12 @@ def nontrivial(line):
             return None
     except ValueError:
         return None
-    return (f.get("m"), f.get("bgm"), f.get("bg"))
+    return (f.get("abc", "dna"), f.get("m"), f.get("bgm"), f.get("bg"))
 
 
 def histogram(line):
     f = _fields(line)
-    keys = ["kind=" + f.get("kind", "?"), "M=" + f.get("M", "?"), "bg=" + f.get("bgm", "?")]
+    keys = ["kind=" + f.get("kind", "?"), "M=" + f.get("M", "?"), "bg=" + f.get("bgm", "?"), "abc=" + f.get("abc", "dna")]
     keys.append("probes<=%d" % (20 * ((len(f.get("pr", "").split(",")) + 19) // 20)))
     return keys
 
@@ -39,10 +39,11 @@ SPEC = dict(
     nontrivial=nontrivial,
     histogram=histogram,
     rule="DNA (K=5) scoring matrices of width 1..8 (all 4^M / 5^M words enumerable; kind `large`: width 9..16, "
-         "structural checks and bit-exact replay only) in 16 rotating kinds: random f32 cells, cells quantised to "
+         "structural checks and bit-exact replay only) and protein (K=21) matrices of width 1..3 (20^M / 21^M words) "
+         "in 16 rotating kinds: random f32 cells, cells quantised to "
          "1/8..1 (ties, exact half steps), count matrices -> frequencies -> log-odds through the library, finite "
-         "wildcard column, constant matrices, narrow range on a large offset, range around/above 1000 (scale 0..2), "
-         "huge cells (offset beyond i32), wildcard-mass backgrounds, NaN/+inf/-inf cells (replay only); "
+         "wildcard column, constant matrices, narrow range on a large offset, range around/above 1000 (fractional scale "
+         "..2), huge cells (offset beyond i32), wildcard-mass backgrounds, NaN/+inf/-inf cells (replay only); "
          "backgrounds: uniform, dyadic non-uniform (exact sum 1, sometimes a zero symbol), from_counts and decimal "
          "(f32 sum 1, real sum 1 +- 1e-7), wildcard mass. Per matrix ~75 scores probed with pvalue (attainable "
          "word scores, their f32 neighbours, +-half a step, +-d, below the minimum, above the maximum, +-1e30, "
@@ -54,7 +55,8 @@ SPEC = dict(
          "table non-increasing in [0,1] (exact IEEE compare); "
          "P(S>=s+d)*(1-2^-30)-delta <= pvalue(s) <= P(S>=s-d)*(1+2^-30)+delta with the exact tails from the "
          "integer word table of the dyadic matrix (= tail_exact by C11_tail_dyadic_correct / C11_dyadic_values; "
-         "delta = |1-(sum b)^M|, 0 for dyadic backgrounds; skipped when scale = 0 or more than 70000 words); "
+         "delta = |1-(sum b)^M|, 0 for dyadic backgrounds; skipped for more than 70000 words or beyond a per-case "
+         "budget of 2.5e6 word visits); "
          "p-values non-increasing over all probe pairs; pvalue(score(p)) <= p (IEEE) or <= p*(1+2^-30)+delta for p in "
          "(0,1); or a panic of to_score_distribution/pvalue/score(p in (0,1)) inside the domain (reported by the "
          "driver). DIFF: any bit of the sf table, min_pvalue, pvalue, score or round trip differing from the "
@@ -75,22 +77,24 @@ SPEC = dict(
         "background-distributed symbols defined by recursion over the rows (law of total probability); proved equal "
         "to the sum over the explicit table of all words for dyadic inputs (C11_tail_dyadic_correct)",
         "modelled, not verified: dist.rs itself (hand-written Gallina model DistModel.v, tied by the bit-exact "
-        "correspondence run); the zip formulation of the inner k-loop (each target cell receives at most one term "
-        "per symbol, so the order of the f64 additions is the symbol order)",
+        "correspondence run on every case); the zip formulation of the inner k-loop is proved equal to the direct "
+        "rendering of the Rust loop for every carrier (C11_kloop_is_rust_loop)",
     ],
     assumptions=[
         "the theorems are about the exact-rational instance of the model (probabilities, cells and scores are "
         "rationals; f64::round/floor/`as i32` are exact half-away rounding, floor and saturation): the binary64 code "
         "is tied to them only by the bit-exact replay plus the stated tolerances (relative 2^-30, absolute "
-        "|1-(sum b)^M|) of the correspondence run; IEEE rounding error of the table is modelled, not verified",
-        "C11_sf_monotone_range and C11_pvalue_monotone assume non-negative weights of total mass <= 1 (false for f32 "
-        "backgrounds whose real sum exceeds 1: known finding C11-sf-last-entry-unclipped)",
-        "C11_pvalue_brackets_exact assumes scale > 0 (cell range <= 1000; else C11-scale-zero), mass 1 on the "
-        "non-skipped symbols of every row (else F12 wildcard-mass), floor(min cell) and 1000*M inside i32 "
-        "(else C11-offset-i32)",
-        "C11_score_pvalue_roundtrip additionally has exact unscale (rational model); the f32 unscale of the code is "
-        "inexact for narrow ranges on large offsets: known finding C11-unscale-inexact",
-        "every theorem is conditional on the model returning Ok (no panic site reached); panic sites are explicit in "
-        "the model and compared with the implementation on every case",
+        "|1-(sum b)^M|) of the correspondence run; IEEE rounding error of the table values is modelled, not verified "
+        "(C11_sf_monotone_range_ieee proves monotonicity and range of the table in binary64 itself)",
+        "C11_sf_monotone_range, C11_pvalue_monotone: non-negative weights (any sum); C11_sf_is_tail, "
+        "C11_pvalue_brackets_exact, C11_score_pvalue_roundtrip: non-negative weights of total mass <= 1 (an f32 "
+        "background whose real sum exceeds 1 by 1e-7 is covered by the checker's tolerance delta, not by the theorems) "
+        "and 1000*M < 2^31-1",
+        "C11_score_pvalue_roundtrip has an exact unscale (rational model); the f32 unscale of the code is inexact for "
+        "narrow ranges on large offsets: known finding C11-unscale-inexact (C11_unscale_inexact_refuted)",
+        "the model follows dist.rs after the repairs 4832e71 (last entry clipped), de0a5ac (sf[0] below min_score), "
+        "d6e308b (fractional scale), 5ab0464 (f64 offset); every panic site of the code is an explicit Panic of the "
+        "model, compared with the implementation on every case; C11_build_total: no panic site is reachable in build "
+        "inside the domain (exact arithmetic)",
     ],
 )
